@@ -401,6 +401,7 @@ func checkC07(c *Ctx) {
 	cipherLooksLikeHeader(c, "C07")
 	waitingReadCoalesced(c, "C07")
 	cutInsideFrame(c, "C07")
+	timeoutInsideFrame(c, "C07")
 	c03Rekey(c)    // a second pair-verify on an encrypted connection (reads and writes change keys at the right moment)
 	c03Handover(c) // reads that are waiting while the first cryptographer is negotiated
 	c.SetRule("one case = (message lengths, segmentation of the ciphertext stream, idle/close events, caller buffer sizes) read " +
